@@ -27,6 +27,9 @@ THEOREMS = [_T + n for n in (
     "undo_event_iff_changed_int", "undo_event_iff_changed_float", "undo_event_iff_changed_option",
     # clause "an array port touches only the element its address names"
     "array_index_of_address", "array_touches_only_index", "array_applies_element_callback",
+    # the element an enumerated sub-tree (rRecurs: name#N/) hands down; index digit runs that do not fit `int` are
+    # undefined in the model, never wrapped
+    "recurs_index_of_address", "matchPath_index_overflow", "array_index_overflow_unsup",
     # clause "strings truncated to the declared length"
     "string_truncated",
     # clause "option symbols translated to their index"
@@ -58,22 +61,37 @@ THEOREMS = [_T + n for n in (
     "Rtosc.Ports.semLoc_handed", "Rtosc.Ports.dispatch_handed",
 ]
 HARNESS = {"src": ["param.cpp"], "deps": ["common.h"]}
-RULE = ("one op line = one port of the fixed table in harness/param.cpp (89 ports: every port macro x several declared "
+RULE = ("one op line = one port of the fixed tables in harness/param.cpp (147 ports: every port macro x several declared "
         "ranges: negative, fractional, one-sided, absent, outside the type of the callback's variable; storage "
         "char/unsigned char/short/int/enum/float/bool/char[]/struct member; arrays of length 1..300 incl. names "
-        "containing digits; rOptions() of every arity 1..24 judged by the position of the symbol; rCOptionCb and "
+        "containing digits; rOptions() of every arity 1..24 judged by the position of the symbol; DOC() of every arity "
+        "1..24: a numeric port d<k> with the declared minimum and maximum at two of the k-1 positions in front of the doc "
+        "string and an option port e<k> whose k-1 arguments are all observable (rOpt entries and the range), judged by "
+        "the numbers written in the oracle's own PORTS table; rLogWithLogmin, rParams, rArray; rCOptionCb and "
         "rArrayTCbMember instantiated by hand; metadata with rSpecial/rShort/rDefault/rCentered/rNoDefaults entries in "
-        "front of the range; string capacity 1..600), dispatched directly (`/`), through rRecur below `/sub/` and below a "
-        "200-letter address, and - six ports of a second table without array ports - through the hashed branch of "
-        "Ports::dispatch (`/flat/`), with a history of 1..8 set/query messages; values: each bound and its neighbours, "
+        "front of the range; string capacity 1..600 and 8300), dispatched directly (`/`), through rRecur below `/sub/` "
+        "and below a 200-letter address, through the hashed branch of Ports::dispatch (`/flat/`: six ports of a table "
+        "without array ports), and through rRecurs: element k of `Vo voice[3]` / `Vo bank[12]` (int, int array, string, "
+        "float, toggle, float array and option ports) and of `Flat fl[2]` at `/voice<k>/`, `/bank<k>/`, `/fl<k>/` and "
+        "one rRecur level further down (`/rack/...`), some indices with leading zeros - the object of element k is "
+        "observed: the port's field in element k holds the value and no other byte of the whole tree changed; "
+        "with a history of 1..8 set/query messages; values: each bound and its neighbours, "
         "storage extremes, in-range, far outside, float bit patterns incl. +-0, subnormals, infinities, non-integral; "
-        "option symbols of the port; strings of length 0..2*capacity; array indices incl. >= 256, leading zeros; a small "
+        "option symbols of the port; strings of length 0..2*capacity; for the 8300-byte string lengths that put the "
+        "reply/broadcast just below, at and just above the size of RtData's formatting buffer (the size declared in "
+        "src/cpp/ports.cpp of the tree under test, and the 8192 bytes the library ships with); array indices incl. "
+        ">= 256, leading zeros, and beyond the declared length (nothing may be stored); a small "
         "stream of wrong-typed arguments, further arguments behind the first one, unknown symbols, quiet and signalling "
-        "NaNs, out-of-range indices, non-numeric text behind the name (`:`, `x`, `#`, `-1`) and values outside the "
-        "storage type (correspondence only, the oracle does not judge them apart from crashes). Compared per message: "
+        "NaNs, non-numeric text behind the name (`:`, `x`, `#`, `-1`), values outside the storage type and strings "
+        "larger than the formatting buffer: such a message is outside the quantifier / the ASSUMPTIONS and is run for "
+        "crashes and stray writes only: the oracle does not judge what the port does with it, and the comparison with "
+        "the model covers the messages in front of the first such message of a history (`~` behind it in the compared "
+        "text). Compared per message: "
         "delivered or not, the multiset of messages handed to reply/broadcast (address, types with c = i, values; "
-        "broadcasts of an unchanged value left out), the port's field (strings up to their terminator), and that no "
-        "other byte of the object tree changed. "
+        "broadcasts of an unchanged value left out; /undo_change events of toggle and string ports left out, the "
+        "property demands them of numeric and option ports only), the port's field (strings up to their terminator), "
+        "and that no other byte of the object tree changed. When obligations break or the model disagrees and no "
+        "failing input is among the cases, the search for one is capped at 60000 further cases. "
         "Non-trivial = the history contains at least one set message; distinct = distinct op line")
 ASSUMPTIONS = [
     "incoming values are representable in the type of the callback's variable (char-backed rParam/rArrayI: -128..127, "
@@ -83,9 +101,23 @@ ASSUMPTIONS = [
     "a bound beyond the type on the far side (rArrayI with maximum 200) is covered and clamps nothing",
     "float clauses: incoming value, stored value and bounds are not NaN; 'changed' is IEEE inequality (+0 = -0)",
     "option symbols are among the port's `map N` entries",
-    "array addresses are <name><decimal index> with index < declared length; port names contain no NUL, '#', ':'",
+    "array addresses are <name><decimal index>; an index >= the declared length names no element and nothing may be "
+    "stored; port names contain no NUL, '#', ':'",
+    "index digit runs (array ports and enumerated sub-trees) denote numbers below 2^31. Beyond that the compiled code "
+    "wraps: rtosc_match_number (src/dispatch.c) and the atoi of rBOILS_BEGIN (port-sugar.h) read 4294967299 as 3 - the "
+    "same wrap C05/C18 document for enumeration indices - so `/ai4294967299 ,i 5` on rArrayI(ai, 4, ...) stores 5 in "
+    "element 3 through an address that names no element (witness `/ ai 4294967299@i5 3@q` in corpus/C14.ops, run for "
+    "crashes only); the model reports such an address as undefined (array_index_overflow_unsup, "
+    "matchPath_index_overflow), it does not wrap",
+    "every reply / broadcast (address + value) fits the formatting buffer of RtData::reply/broadcast, 8192 bytes as "
+    "shipped: the string clauses are judged for messages up to that size whatever size the tree under test declares; "
+    "a larger message is sent empty by the unchanged code (rtosc_vmessage returns 0)",
+    "a message outside this list is run for crashes and stray writes only; the comparison with the model covers the "
+    "messages in front of the first such message of a history (behind it the pre-state may be outside too), the "
+    "oracle judges every message inside the list from the state the implementation printed in front of it",
     "the callbacks read the first argument only; the theorems hold for any further arguments (the type pattern's last "
-    "alternative accepts them)",
+    "alternative accepts them); the property's quantifier has one value per message, so the check runs messages with "
+    "further arguments for crashes and stray writes only",
     "integer ports: the clamping theorems are about the bound the callback uses, atoi(metadata literal); that this "
     "bound lies inside the declared literal range holds outside the trigger boundTruncatedOutward (finding C14-K1)",
     "field types of the integer kinds: char, unsigned char, short, int and int-based enums (IntTy) are executed by the "
@@ -118,8 +150,14 @@ TRUSTED = [
     "validated only by its proved equality with the executed model on char/unsigned char/short/int and by a one-off "
     "probe of the compiled macros (unsigned, long, unsigned short, unsigned long fields; 21 messages)",
     "RtoscModel/Meta.lean (C17) for prop[\"min\"], prop[\"max\"] and the iteration in enum_key",
-    "the expansion tables of the metadata macros (OPTIONS_IMPn, rOptionsBound, DOC_IMPn) are not modelled: the model reads "
-    "the metadata block they generate; only the oracle's positional symbol map (rOptions arity 1..24) checks them",
+    "the expansion tables of the metadata macros (OPTIONS_IMPn, rOptionsBound, DOC_IMPn, MAC_EACH) are not modelled and "
+    "no theorem speaks about them: the model reads the metadata block they generate. They are checked only by the "
+    "Python oracle on the compiled ports, whose declared numbers are written in its own PORTS table: rOptions arity "
+    "1..24 (position of each symbol), DOC arity 1..24 (d<k>: minimum and maximum at two positions, e<k>: every "
+    "argument in front of the doc string), rLogWithLogmin, rParams and rArray once each; rPresets, rDepends, "
+    "rEnabledBy, rDefaultId and arities above 24 are not instantiated",
+    "enumerated sub-trees (rRecurs): that element k's object is the one written is observed on the compiled code "
+    "only (harness/param.cpp `/voice<k>/`, `/bank<k>/`, `/fl<k>/`); the model takes the object address as given",
 ]
 LEVEL_TEXT = ("Lean theorems for the callback macros rParamCb, rParamICb, rParamFCb, rCOptionCb_/rOptionCb, rToggleCb, rStringCb "
               "and the array forms rArrayFCb, rArrayICb, rArrayTCb, rArrayTCbMember, rArrayOptionCb (all values, all declared "
@@ -128,20 +166,30 @@ LEVEL_TEXT = ("Lean theorems for the callback macros rParamCb, rParamICb, rParam
               "/undo_change with the true old and new value iff changed, arrays touch only the addressed element, strings "
               "truncated, symbols translated; integer fields of every C integer type (unsigned short, unsigned, long, unsigned long "
               "as a proved-conservative extension of the executed model); delivery at the port's full address: scalar and "
-              "array ports (name<k> reaches element k iff k < N, nothing else is delivered) over the restricted matcher, and "
-              "through the rRecur address walk of C04's Ports::dispatch model for port trees of any depth (loc = full "
+              "array ports (name<k> reaches element k iff k < N, nothing else is delivered; index digit runs below 2^31) "
+              "over the restricted matcher, and through the rRecur address walk of C04's Ports::dispatch model for port trees of any depth (loc = full "
               "address, msg = the port's own part, object and port pointer handed down; the restricted matcher agrees with "
-              "C05's on macro names); the model is compared with the compiled macros on tens of thousands of generated histories per run "
-              "and the property is evaluated by an independent Python reference on the implementation's own output")
-LEVEL_NOTE = ("Not covered by a theorem: the metadata expansion macros (OPTIONS_IMPn etc., checked by the positional "
-              "oracle only); dispatch without a location buffer (the sugar callbacks dereference data.loc); sub-trees "
+              "C05's on macro names). The theorems start from the metadata block and name pattern of a port: that the "
+              "port macros and their expansion tables (DOC_IMPn, OPTIONS_IMPn, MAC_EACH) generate the declared block is "
+              "not a theorem; it is checked on the compiled ports by an independent Python reference whose table holds the "
+              "declared numbers (DOC and rOptions arities 1..24, ranges at varying positions). The model is compared with "
+              "the compiled macros on tens of thousands of generated histories per run, inside the property's quantifier, "
+              "and the property is evaluated by the Python reference on the implementation's own output")
+LEVEL_NOTE = ("Not covered by a theorem: the metadata expansion macros (DOC_IMPn, OPTIONS_IMPn etc.: oracle on the compiled "
+              "ports only, one port per arity); dispatch without a location buffer (the sugar callbacks dereference data.loc); sub-trees "
               "entered through rRecurs/rRecurp index hand-down (the object of element k) - delivery_through_recur identifies "
-              "objects by table path only; 64-bit and unsigned fields are theorem-only (no harness port), option ports on "
+              "objects by table path only; the compiled code is driven through rRecurs (`/voice<k>/...`) and the object of "
+              "element k is observed there, the model takes the object address as given; reply/broadcast messages larger "
+              "than RtData's 8192-byte formatting buffer (sent empty) are outside the theorems and the oracle; the integer "
+              "undo theorems assume that the old value fits the callback's variable (rArrayI on int storage reports "
+              "(char)old otherwise); 64-bit and unsigned fields are theorem-only (no harness port), option ports on "
               "wide fields are not covered. Open finding for the maintainers (not patched): rLIMIT on an unsigned / unsigned "
               "long variable converts a negative declared bound to a huge value (limitIntW_clamps_counterexample). "
               "rOptionsBound(a,b,c) declares max = 3 (the number of symbols, one more than "
-              "the largest index): the check follows the declared metadata. Indices whose digits overflow `int` and float "
-              "bounds given as hex/inf/nan literals are outside the model (explicit `unsup`), and outside the generator.")
+              "the largest index): the check follows the declared metadata. Indices whose digits overflow `int` are outside the model (explicit `unsup`, "
+              "array_index_overflow_unsup) while the compiled code wraps them modulo 2^32 and writes an element the address "
+              "does not name (ASSUMPTIONS; witness in the corpus, crash-only); float "
+              "bounds given as hex/inf/nan literals are outside the model (explicit `unsup`) and outside the generator.")
 
 INT_RANGE = {"i8": (-128, 127), "u8": (0, 255), "i16": (-32768, 32767), "i32": (-2 ** 31, 2 ** 31 - 1)}
 
@@ -225,14 +273,130 @@ PORTS = {
 # rOption(onN, rOptions(v0, ..., v<N-1>)): the symbol written at position i means index i
 for _n in range(1, 25):
     PORTS["on%d" % _n] = dict(kind="opt", store="i32", map={b"v%d" % _i: _i for _i in range(_n)})
+# One port per arity of the DOC() expansion table (DOC_IMP1..DOC_IMP24): d<k> / d<k>x is a numeric port whose macro
+# invocation has k arguments (the doc string included) with the declared minimum and maximum at two of the k-1
+# positions in front of the doc string; e<k> / e<k>x is an option port where every one of the k-1 arguments is
+# observable (rOpt(i, w<i>) entries and the range).  The numbers are written here, not read from the generated block.
+PORTS.update({
+    "d1": dict(kind="int", tag="i", store="i32", var="i32"),
+    "d2": dict(kind="flt", lo="-4.25", hi="7.5"),
+    "d3x": dict(kind="int", tag="i", store="i32", var="i8", n=2, lo=-5, hi=10),
+    "d4x": dict(kind="flt", n=3, lo="-6.25", hi="13.5"),
+    "d5": dict(kind="int", tag="i", store="i32", var="i32", lo=-7, hi=16),
+    "d6": dict(kind="flt", lo="-8.25", hi="19.5"),
+    "d7x": dict(kind="int", tag="i", store="i32", var="i8", n=3, lo=-9, hi=22),
+    "d8x": dict(kind="flt", n=4, lo="-10.25", hi="25.5"),
+    "d9": dict(kind="int", tag="i", store="i32", var="i32", lo=-11, hi=28),
+    "d10": dict(kind="flt", lo="-12.25", hi="31.5"),
+    "d11x": dict(kind="int", tag="i", store="i32", var="i8", n=4, lo=-13, hi=34),
+    "d12x": dict(kind="flt", n=2, lo="-14.25", hi="37.5"),
+    "d13": dict(kind="int", tag="i", store="i32", var="i32", lo=-15, hi=40),
+    "d14": dict(kind="flt", lo="-16.25", hi="43.5"),
+    "d15x": dict(kind="int", tag="i", store="i32", var="i8", n=2, lo=-17, hi=46),
+    "d16x": dict(kind="flt", n=3, lo="-18.25", hi="49.5"),
+    "d17": dict(kind="int", tag="i", store="i32", var="i32", lo=-19, hi=52),
+    "d18": dict(kind="flt", lo="-20.25", hi="55.5"),
+    "d19x": dict(kind="int", tag="i", store="i32", var="i8", n=3, lo=-21, hi=58),
+    "d20x": dict(kind="flt", n=4, lo="-22.25", hi="61.5"),
+    "d21": dict(kind="int", tag="i", store="i32", var="i32", lo=-23, hi=64),
+    "d22": dict(kind="flt", lo="-24.25", hi="67.5"),
+    "d23x": dict(kind="int", tag="i", store="i32", var="i8", n=4, lo=-25, hi=70),
+    "d24x": dict(kind="flt", n=2, lo="-26.25", hi="73.5"),
+    "e2": dict(kind="opt", store="i32", map={b"w0": 0, b"w1": 1, b"w2": 2}),
+    "e3x": dict(kind="opt", store="i32", map={b"w0": 0}, n=2, lo=0, hi=0),
+    "e4": dict(kind="opt", store="i32", map={b"w0": 0, b"w1": 1}, lo=0, hi=0),
+    "e5x": dict(kind="opt", store="i32", map={b"w0": 0, b"w1": 1, b"w2": 2}, n=4, lo=0, hi=1),
+    "e6": dict(kind="opt", store="i32", map={b"w0": 0, b"w1": 1, b"w2": 2, b"w3": 3}, lo=0, hi=2),
+    "e7x": dict(kind="opt", store="i32", map={b"w0": 0, b"w1": 1, b"w2": 2, b"w3": 3, b"w4": 4}, n=3, lo=0, hi=3),
+    "e8": dict(kind="opt", store="i32", map={b"w0": 0, b"w1": 1, b"w2": 2, b"w3": 3, b"w4": 4, b"w5": 5}, lo=0, hi=4),
+    "e9x": dict(kind="opt", store="i32", map={b"w0": 0, b"w1": 1, b"w2": 2, b"w3": 3, b"w4": 4, b"w5": 5, b"w6": 6}, n=2, lo=0, hi=5),
+    "e10": dict(kind="opt", store="i32", map={b"w0": 0, b"w1": 1, b"w2": 2, b"w3": 3, b"w4": 4, b"w5": 5, b"w6": 6, b"w7": 7}, lo=0, hi=6),
+    "e11x": dict(kind="opt", store="i32", map={b"w0": 0, b"w1": 1, b"w2": 2, b"w3": 3, b"w4": 4, b"w5": 5, b"w6": 6, b"w7": 7, b"w8": 8}, n=4, lo=0, hi=7),
+    "e12": dict(kind="opt", store="i32", map={b"w0": 0, b"w1": 1, b"w2": 2, b"w3": 3, b"w4": 4, b"w5": 5, b"w6": 6, b"w7": 7, b"w8": 8, b"w9": 9}, lo=0, hi=8),
+    "e13x": dict(kind="opt", store="i32", map={b"w0": 0, b"w1": 1, b"w2": 2, b"w3": 3, b"w4": 4, b"w5": 5, b"w6": 6, b"w7": 7, b"w8": 8, b"w9": 9, b"w10": 10}, n=3, lo=0, hi=9),
+    "e14": dict(kind="opt", store="i32", map={b"w0": 0, b"w1": 1, b"w2": 2, b"w3": 3, b"w4": 4, b"w5": 5, b"w6": 6, b"w7": 7, b"w8": 8, b"w9": 9, b"w10": 10, b"w11": 11}, lo=0, hi=10),
+    "e15x": dict(kind="opt", store="i32", map={b"w0": 0, b"w1": 1, b"w2": 2, b"w3": 3, b"w4": 4, b"w5": 5, b"w6": 6, b"w7": 7, b"w8": 8, b"w9": 9, b"w10": 10, b"w11": 11, b"w12": 12}, n=2, lo=0, hi=11),
+    "e16": dict(kind="opt", store="i32", map={b"w0": 0, b"w1": 1, b"w2": 2, b"w3": 3, b"w4": 4, b"w5": 5, b"w6": 6, b"w7": 7, b"w8": 8, b"w9": 9, b"w10": 10, b"w11": 11, b"w12": 12, b"w13": 13}, lo=0, hi=12),
+    "e17x": dict(kind="opt", store="i32", map={b"w0": 0, b"w1": 1, b"w2": 2, b"w3": 3, b"w4": 4, b"w5": 5, b"w6": 6, b"w7": 7, b"w8": 8, b"w9": 9, b"w10": 10, b"w11": 11, b"w12": 12, b"w13": 13, b"w14": 14}, n=4, lo=0, hi=13),
+    "e18": dict(kind="opt", store="i32", map={b"w0": 0, b"w1": 1, b"w2": 2, b"w3": 3, b"w4": 4, b"w5": 5, b"w6": 6, b"w7": 7, b"w8": 8, b"w9": 9, b"w10": 10, b"w11": 11, b"w12": 12, b"w13": 13, b"w14": 14, b"w15": 15}, lo=0, hi=14),
+    "e19x": dict(kind="opt", store="i32", map={b"w0": 0, b"w1": 1, b"w2": 2, b"w3": 3, b"w4": 4, b"w5": 5, b"w6": 6, b"w7": 7, b"w8": 8, b"w9": 9, b"w10": 10, b"w11": 11, b"w12": 12, b"w13": 13, b"w14": 14, b"w15": 15, b"w16": 16}, n=3, lo=0, hi=15),
+    "e20": dict(kind="opt", store="i32", map={b"w0": 0, b"w1": 1, b"w2": 2, b"w3": 3, b"w4": 4, b"w5": 5, b"w6": 6, b"w7": 7, b"w8": 8, b"w9": 9, b"w10": 10, b"w11": 11, b"w12": 12, b"w13": 13, b"w14": 14, b"w15": 15, b"w16": 16, b"w17": 17}, lo=0, hi=16),
+    "e21x": dict(kind="opt", store="i32", map={b"w0": 0, b"w1": 1, b"w2": 2, b"w3": 3, b"w4": 4, b"w5": 5, b"w6": 6, b"w7": 7, b"w8": 8, b"w9": 9, b"w10": 10, b"w11": 11, b"w12": 12, b"w13": 13, b"w14": 14, b"w15": 15, b"w16": 16, b"w17": 17, b"w18": 18}, n=2, lo=0, hi=17),
+    "e22": dict(kind="opt", store="i32", map={b"w0": 0, b"w1": 1, b"w2": 2, b"w3": 3, b"w4": 4, b"w5": 5, b"w6": 6, b"w7": 7, b"w8": 8, b"w9": 9, b"w10": 10, b"w11": 11, b"w12": 12, b"w13": 13, b"w14": 14, b"w15": 15, b"w16": 16, b"w17": 17, b"w18": 18, b"w19": 19}, lo=0, hi=18),
+    "e23x": dict(kind="opt", store="i32", map={b"w0": 0, b"w1": 1, b"w2": 2, b"w3": 3, b"w4": 4, b"w5": 5, b"w6": 6, b"w7": 7, b"w8": 8, b"w9": 9, b"w10": 10, b"w11": 11, b"w12": 12, b"w13": 13, b"w14": 14, b"w15": 15, b"w16": 16, b"w17": 17, b"w18": 18, b"w19": 19, b"w20": 20}, n=4, lo=0, hi=19),
+    "e24": dict(kind="opt", store="i32", map={b"w0": 0, b"w1": 1, b"w2": 2, b"w3": 3, b"w4": 4, b"w5": 5, b"w6": 6, b"w7": 7, b"w8": 8, b"w9": 9, b"w10": 10, b"w11": 11, b"w12": 12, b"w13": 13, b"w14": 14, b"w15": 15, b"w16": 16, b"w17": 17, b"w18": 18, b"w19": 19, b"w20": 20, b"w21": 21}, lo=0, hi=20),
+})
+PORTS.update({
+    # rLogWithLogmin, rParams (= rArray + an alias port that replies a blob and is never addressed), rArray (= rArrayI)
+    "pfl": dict(kind="flt", lo="0.5", hi="100"),
+    "prm": dict(kind="int", tag="i", store="i32", var="i8", n=5, lo=0, hi=50),
+    "arr": dict(kind="int", tag="i", store="i32", var="i8", n=4, lo=-2, hi=9),
+    # a string whose reply / broadcast can be larger than the formatting buffer of RtData::reply/broadcast
+    "strhuge": dict(kind="str", cap=8300, big=True, huge=True),
+    # the element type of the enumerated sub-trees (rRecurs): /voice<k>/, /bank<k>/
+    "vvol": dict(kind="int", tag="i", store="i32", var="i32", lo=-10, hi=10, vo=True),
+    "varr": dict(kind="int", tag="i", store="i32", var="i8", n=3, lo=0, hi=100, vo=True),
+    "vname": dict(kind="str", cap=8, vo=True),
+    "vgain": dict(kind="flt", lo="-1", hi="1", vo=True),
+    "von": dict(kind="tog", vo=True),
+    "vpan": dict(kind="flt", n=2, lo="-1", hi="1", vo=True),
+    "vwave": dict(kind="opt", store="i32", map={b"sine": 0, b"saw": 1, b"square": 2}, lo=0, hi=2, vo=True),
+})
 
 LONGNAME = "abcdefghij" * 20
 PREFIX_OBJ = ["/", "/sub/", "/" + LONGNAME + "/"]
-PREFIX_FLAT = ["/", "/flat/"]
+# hashed element table below rRecur (`/flat/`) and below rRecurs (`/fl<k>/`: element k of Flat fl[2])
+PREFIX_FLAT = ["/", "/flat/", "/fl0/", "/fl1/", "/rack/fl0/", "/rack/fl1/", "/fl01/"]
+# enumerated sub-trees: element k of `Vo voice[3]` / `Vo bank[12]` through rRecurs, directly below the root
+# and one rRecur level further down; a few indices with leading zeros (atoi reads them as the same element)
+PREFIX_VO = (["/"] + ["/voice%d/" % k for k in range(3)] + ["/bank%d/" % k for k in range(12)]
+             + ["/rack/voice%d/" % k for k in range(3)] + ["/rack/bank%d/" % k for k in (0, 1, 9, 10, 11)]
+             + ["/voice02/", "/bank007/", "/rack/bank011/"])
+
+# RtData::reply/broadcast format into a stack buffer; the property's string clauses are judged for messages that fit
+# the size the library ships with.
+DOC_BUF = 8192
 
 
 def prefixes(P):
-    return PREFIX_FLAT if P.get("flat") else PREFIX_OBJ
+    return PREFIX_FLAT if P.get("flat") else PREFIX_VO if P.get("vo") else PREFIX_OBJ
+
+
+def pad4(n):
+    return (n + 3) // 4 * 4
+
+
+def msgsize(loclen, n):
+    """size of the OSC message `<loc> ,s <string of n bytes>`"""
+    return pad4(loclen + 1) + 4 + pad4(n + 1)
+
+
+_bufsz = None
+
+
+def tree_bufsize():
+    """N of `char buffer[N]` in RtData::reply(path, args, ...) / broadcast(path, args, ...) of the tree under test
+    (the smaller of the two; 8192 when the text has another shape)"""
+    global _bufsz
+    if _bufsz is None:
+        import os
+        n = []
+        try:
+            src = open(os.path.join(vlib.REPO, "src/cpp/ports.cpp")).read()
+        except OSError:
+            src = ""
+        for name in ("reply", "broadcast"):
+            m = re.search(r"void\s+RtData::%s\s*\(\s*const\s+char\s*\*\s*path\s*,\s*const\s+char\s*\*\s*args\s*,"
+                          r"\s*\.\.\.\s*\)\s*\{(.*?)\n\}" % name, src, re.S)
+            if m:
+                mb = re.search(r"char\s+buffer\s*\[\s*(\d+)\s*\]", m.group(1))
+                mc = re.search(r"rtosc_vmessage\s*\(\s*buffer\s*,\s*(\d+)\s*,", m.group(1))
+                if mb:
+                    n.append(int(mb.group(1)))
+                if mc:
+                    n.append(int(mc.group(1)))
+        _bufsz = min(n) if n else DOC_BUF
+    return _bufsz
 
 
 def f32bits(x):
@@ -335,7 +499,7 @@ def flt_values(rng, P):
 STR_ALPH = bytes(range(0x20, 0x7f)) + bytes([0x80, 0xc3, 0xa9, 0xff, 0x01, 0x09])
 
 
-def gen_arg(rng, P, stats):
+def gen_arg(rng, P, stats, loclen=8):
     """one argument token for a set message that the property quantifies over"""
     k = P["kind"]
     if k == "int":
@@ -352,7 +516,21 @@ def gen_arg(rng, P, stats):
         return rng.choice("TF")
     cap = P["cap"]
     r = rng.random()
-    if r < 0.25:
+    if P.get("huge"):
+        # the broadcast `<loc> ,s <stored string>` just below / at / just above the formatting buffer of
+        # RtData::broadcast: the size the tree under test has, and the size the library ships with
+        if r < 0.6:
+            lim = rng.choice([tree_bufsize(), tree_bufsize(), DOC_BUF])
+            n = lim - pad4(loclen + 1) - 4 - 1 + rng.randint(-9, 8)
+            n = max(0, min(n, cap + 20))
+            stats["string_near_buffer"] = stats.get("string_near_buffer", 0) + 1
+        elif r < 0.75:
+            n = rng.randint(cap - 3, cap + 3)
+        elif r < 0.9:
+            n = rng.randint(0, 64)
+        else:
+            n = rng.randint(0, cap + 20)
+    elif r < 0.25:
         n = rng.choice([0, max(0, cap - 2), max(0, cap - 1), cap, cap + 1])
     elif r < 0.5 and cap > 64:
         n = rng.randint(cap // 3, cap - 1)
@@ -414,7 +592,8 @@ def gen_line(rng, pid, stats):
     P = PORTS[pid]
     desc = table()[pid]
     pf = prefixes(P)
-    mode = pf[0] if len(pf) == 2 and rng.random() < 0.5 else rng.choice(pf)
+    mode = rng.choice(pf)
+    loclen = len(mode) + len(pid)
     nm = rng.randint(1, 3 if P.get("big") else 8)
     msgs = []
     for _ in range(nm):
@@ -429,14 +608,14 @@ def gen_line(rng, pid, stats):
             a = "q"
             stats["queries"] = stats.get("queries", 0) + 1
         elif r < 0.95:
-            a = gen_arg(rng, P, stats)
+            a = gen_arg(rng, P, stats, loclen)
             stats["sets"] = stats.get("sets", 0) + 1
         else:
             a = gen_odd_arg(rng, P, stats)
         msgs.append(idx + a)
     stats["by_port_kind"][desc.split()[1]] = stats["by_port_kind"].get(desc.split()[1], 0) + 1
     stats["history_len"][str(nm)] = stats["history_len"].get(str(nm), 0) + 1
-    mname = mode if len(mode) < 20 else "/<200 letters>/"
+    mname = re.sub(r"\d+", "<k>", mode) if len(mode) < 20 else "/<200 letters>/"
     stats["mode"][mname] = stats["mode"].get(mname, 0) + 1
     return "%s %s %s" % (hx(mode.encode()), desc, " ".join(msgs))
 
@@ -457,8 +636,16 @@ def corpus_by_id():
     return out
 
 
+_gen_calls = 0
+SEARCH_CAP = 60000      # cases of the runner's search for a failing input (its second call of generate)
+
+
 def generate(rng, tier, stats):
+    global _gen_calls
+    _gen_calls += 1
     n = 40000 if tier == "quick" else 600000
+    if _gen_calls > 1 and tier == "thorough":
+        n = SEARCH_CAP
     stats.update({"by_port_kind": {}, "history_len": {}, "mode": {}, "ports": len(PORTS)})
     ids = sorted(PORTS)
     missing = [i for i in ids if i not in table()] + [i for i in table() if i not in PORTS]
@@ -475,13 +662,16 @@ def generate(rng, tier, stats):
         idx = "0@" if "n" in P else ""
         for mode in prefixes(P):
             first = "" if P.get("set_first") else idx + "q "
-            yield "%s %s %s%s%s %sq" % (hx(mode.encode()), table()[pid], first, idx, gen_arg(rng, P, stats), idx)
+            yield "%s %s %s%s%s %sq" % (hx(mode.encode()), table()[pid], first, idx,
+                                        gen_arg(rng, P, stats, len(mode) + len(pid)), idx)
     # `v9` (digit at the end of an array's name) makes the unrepaired rBOILS_BEGIN index far
     # outside the object on every message; the runner gives up after 200 crashes, so this one
     # port gets a fixed small share.  The ports with several hundred elements / bytes print long
     # states: a fixed share as well.
     big = [i for i in ids if PORTS[i].get("big")]
     flat = [i for i in ids if PORTS[i].get("flat")]
+    vo = [i for i in ids if PORTS[i].get("vo")]
+    doc = [i for i in ids if re.fullmatch(r"[de]\d+x?", i)]
     rest = [i for i in ids if i != "v9" and i not in big]
     every = max(1, n // 100)
     for j in range(n):
@@ -491,6 +681,10 @@ def generate(rng, tier, stats):
             pid = big[(j // 25) % len(big)]
         elif j % 25 in (2, 3):
             pid = rng.choice(flat)
+        elif j % 25 in (4, 5, 6):
+            pid = rng.choice(vo)
+        elif j % 25 in (7, 8, 9, 10):
+            pid = rng.choice(doc)
         else:
             pid = rng.choice(rest)
         yield gen_line(rng, pid, stats)
@@ -569,21 +763,87 @@ def clamp(v, lo, hi):
     return v
 
 
+def outside(P, loc, before, tok, trunc=False):
+    """Is this message, sent in the state `before`, outside what the property quantifies over (its quantifier text
+    and the ASSUMPTIONS)?  Such a message is run for crashes and stray writes only: the oracle does not judge what the
+    port does with it, and the comparison with the model stops in front of it (the two states may differ from there)."""
+    idx = None
+    arg = tok
+    if "@" in tok:
+        it, arg = tok.split("@")
+        if "n" not in P or not it.isdigit() or int(it) >= 2 ** 31:
+            return True                 # not <name><decimal index>; digit runs that overflow `int`
+        if int(it) >= P["n"]:
+            return False                # names no element: nothing may be touched (judged)
+        idx = int(it)
+    elif "n" in P:
+        return True
+    if "+" in arg:
+        return True                     # further arguments
+    k = P["kind"]
+    old = before if k == "str" else before[idx or 0]
+    if arg == "q":
+        if k == "str":
+            return old is None or msgsize(len(loc), len(old)) > DOC_BUF
+        if k == "flt":
+            return math.isnan(bits2f(old))
+        return False
+    t = arg[0]
+    if k == "int":
+        if t != P["tag"]:
+            return True
+        v = int(arg[1:])
+        lo_s, hi_s = INT_RANGE[P["var"]]
+        if not (lo_s <= v <= hi_s) or not (lo_s <= old <= hi_s):
+            return True
+        lo, hi = decl_bounds_int(P, trunc)
+        new = clamp(v, lo, hi)
+        s_lo, s_hi = INT_RANGE[P["store"]]
+        return not (lo_s <= new <= hi_s) or not (s_lo <= new <= s_hi)   # the declared range lies outside the type
+    if k == "opt":
+        lo_s, hi_s = INT_RANGE[P["store"]]
+        if t == "S":
+            sym = unhx(arg[1:])
+            if sym not in P["map"]:
+                return True
+            new = P["map"][sym]
+        elif t in "ic":
+            v = int(arg[1:])
+            if not (lo_s <= v <= hi_s):
+                return True
+            lo, hi = decl_bounds_int(P, trunc)
+            new = clamp(v, lo, hi)
+        else:
+            return True
+        return not (lo_s <= new <= hi_s)
+    if k == "flt":
+        return t != "f" or math.isnan(bits2f(int(arg[1:], 16))) or math.isnan(bits2f(old))
+    if k == "tog":
+        return t not in "TF"
+    if t != "s":
+        return True
+    return msgsize(len(loc), min(len(unhx(arg[1:])), P["cap"] - 1)) > DOC_BUF
+
+
 def check_msg(P, loc, before, seg, tok, trunc=False):
     """returns (error | None, state after).  `before`/after: list of values or bytes."""
     parts = seg.split(";")
     if len(parts) != 3:
         return "unparsable output segment `%s`" % seg, before
     matched, evs, after = parts[0] == "1", parse_events(parts[1]), parse_state(P, parts[2])
+    if outside(P, loc, before, tok, trunc):
+        return None, after
     idx = None
     arg = tok
     if "@" in tok:
         it, arg = tok.split("@")
-        if "n" not in P or not it.isdigit() or int(it) >= P["n"]:
-            return None, after          # names no element / no port: outside the property
+        if int(it) >= P["n"]:
+            # the address names no element of the port: nothing may be stored
+            if after != before:
+                return "address names no element (index %s of %d) but the field changed: %r -> %r" % (
+                    it, P["n"], before, after), after
+            return None, after
         idx = int(it)
-    if "+" in arg:
-        return None, after
     k = P["kind"]
     undo = [e for e in evs if e[1] == b"/undo_change"]
     at_loc = [e for e in evs if e[1] == loc]
@@ -731,6 +991,7 @@ def oracle(op, out, trunc=False):
     w = op.split()
     if len(w) < 9 or w[1] not in PORTS:
         return None
+    out = _RAW.get(op, out)             # what the harness printed, before canon() masked anything
     if out.startswith("crash") or out.startswith("table-mismatch") or out.startswith("bad-op"):
         return "implementation: " + out[:200]
     P = PORTS[w[1]]
@@ -746,10 +1007,73 @@ def oracle(op, out, trunc=False):
         if seg == "bad-msg":
             continue
         path = w[1].encode() + (tok.split("@")[0].encode() if "@" in tok else b"")
+        # a message outside the quantifier is not judged (check_msg); the messages behind it are, each from the state
+        # the implementation printed in front of it
         err, state = check_msg(P, pfx + path, state, seg, tok, trunc)
         if err:
             return "message `%s`: %s" % (tok, err)
     return None
+
+
+# ------------------------------------------------------------------------------------------
+# comparison with the model: only what the property observes, only inside its quantifier
+# ------------------------------------------------------------------------------------------
+_RAW = {}       # op line -> what the harness printed, when canon() changed it
+_CUT = {}       # op line -> number of leading messages inside the property's quantifier
+UNDO_HEX = b"/undo_change".hex()
+
+
+def first_outside(op, out):
+    """number of leading messages of the history that are inside the quantifier/ASSUMPTIONS, following the states the
+    implementation printed; None when the output cannot be followed (crash, malformed)"""
+    w = op.split()
+    if len(w) < 9 or w[1] not in PORTS:
+        return None
+    P = PORTS[w[1]]
+    msgs = w[8:]
+    segs = out.split(" ")
+    if out.startswith(("crash", "table-mismatch", "bad-op")) or len(segs) != len(msgs) + 1:
+        return None
+    try:
+        pfx = unhx(w[0])
+        state = parse_state(P, w[7], raw=True)
+        for j, (tok, seg) in enumerate(zip(msgs, segs)):
+            if seg == "bad-msg":
+                continue
+            path = w[1].encode() + (tok.split("@")[0].encode() if "@" in tok else b"")
+            if outside(P, pfx + path, state, tok):
+                return j
+            state = parse_state(P, seg.split(";")[2])
+    except (ValueError, IndexError, KeyError):
+        return None
+    return len(msgs)
+
+
+def canon(op, out, cut, is_model):
+    """The output as far as the property speaks about it: the segments of the messages in front of the first one
+    outside the quantifier (behind it `~`; crashes and the final `X=` token stay), and for toggle and string ports
+    without /undo_change events (the property demands undo events of numeric and option ports only)."""
+    if cut is None or out.startswith(("crash", "table-mismatch", "bad-op")):
+        return out
+    w = op.split()
+    n = len(w) - 8
+    segs = out.split(" ")
+    if len(segs) == n + 1:
+        body, x = segs[:n], segs[n]
+    elif is_model and segs[-1].startswith("err:") and len(segs) - 1 >= cut:
+        body, x = segs[:-1], "X=ok"         # the model leaves the message undefined: outside as well
+    else:
+        return out
+    body = body[:cut] + ["~"] * (n - cut)
+    if PORTS[w[1]]["kind"] in ("tog", "str"):
+        for j in range(cut):
+            if UNDO_HEX in body[j]:
+                f = body[j].split(";")
+                if len(f) == 3:
+                    ev = [e for e in f[1].split(",") if e.split(":")[1:2] != [UNDO_HEX]]
+                    f[1] = ",".join(ev) or "-"
+                    body[j] = ";".join(f)
+    return " ".join(body + [x])
 
 
 def known(op, impl_out, model_out, defs):
@@ -781,6 +1105,35 @@ def main(argv):
     import shutil
     import sys
     mod = sys.modules[__name__]
+    orig_h, orig_d = vlib.run_harness, vlib.run_driver
+
+    def run_harness_canon(exe, ops, workdir, tag, extra_args=()):
+        raw = orig_h(exe, ops, workdir, tag, extra_args)
+        out = []
+        for op, r in zip(ops, raw):
+            cut = first_outside(op, r)
+            _CUT[op] = cut
+            c = canon(op, r, cut, False)
+            if c != r:
+                _RAW[op] = r
+            out.append(c)
+        return out
+
+    def run_driver_canon(engine, ops, workdir, tag, nproc=1):
+        raw = orig_d(engine, ops, workdir, tag, nproc)
+        return [canon(op, r, _CUT.get(op), True) for op, r in zip(ops, raw)]
+
+    vlib.run_harness, vlib.run_driver = run_harness_canon, run_driver_canon
+    try:
+        return _main(mod, argv)
+    finally:
+        vlib.run_harness, vlib.run_driver = orig_h, orig_d
+
+
+def _main(mod, argv):
+    import os
+    import random
+    import shutil
     try:
         return vlib.main(mod, argv)
     except RuntimeError as e:
